@@ -54,4 +54,21 @@ theorem adam_matches {n : Nat} (cfg : AdamCfg) (st : AdamState n) (g : Vec n) (s
     try ring
   · simp only [adamStep, GenF.adamT]
 
+/-- **G18c `cma_params_match`** : the learning rates `cc`, `cs`, `c1`, `cmu` of
+`CMAEvolutionStrategy._calc_strat_params` as functions of `mueff` and the dimension (the literal
+`1.3` is read as the source spells it, 13/10) -/
+theorem cma_params_match (n : Nat) (w : List Rat) :
+    (cmaParams n w).cc = GenF.cmaCc (mueffOf w) (n : Rat) ∧
+    (cmaParams n w).cs = GenF.cmaCs (mueffOf w) (n : Rat) ∧
+    (cmaParams n w).c1 = GenF.cmaC1 (mueffOf w) (n : Rat) ∧
+    (cmaParams n w).cmu = GenF.cmaCmu (mueffOf w) (n : Rat) := by
+  refine ⟨?_, ?_, ?_, ?_⟩
+  · simp only [cmaParams, GenF.cmaCc]; try ring
+  · simp only [cmaParams, GenF.cmaCs]; try ring
+  · simp only [cmaParams, GenF.cmaC1]; try ring
+  · simp only [cmaParams, GenF.cmaCmu, rmin]
+    have e1 : ((n : Rat) + 13 / 10) * ((n : Rat) + 13 / 10) = ((n : Rat) + 13 / 10) ^ 2 := by ring
+    have e2 : ((n : Rat) + 2) * ((n : Rat) + 2) = ((n : Rat) + 2) ^ 2 := by ring
+    rw [e1, e2]
+
 end Pyribs.GenFProofs
